@@ -65,7 +65,7 @@ def programs(draw, tier):
         return {"op": "construct", "type": t, "n": draw(st.integers(2, 3)), "nh": draw(st.integers(1, 3)), "na": draw(st.integers(1, 2))}
     ops = [cons()]
     for _ in range(draw(st.integers(1, 7))):
-        k = draw(st.sampled_from(["construct", "reinit", "sample", "sample", "statistics", "fit", "fit", "save_autoload", "sample_from_space"]))
+        k = draw(st.sampled_from(["construct", "reinit", "sample", "sample", "statistics", "fit", "fit", "save_autoload", "sample_from_space", "make_unitaries"]))
         if k == "construct":
             ops.append(cons())
         elif k in ("sample", "sample_from_space"):
@@ -156,6 +156,13 @@ def run_program(ops, seed, tmp, form="explicit"):
             if not bool(torch.isfinite(params_flat(state)).all()):
                 raise Diverged()
             outs.append(params_flat(state))
+        elif k == "make_unitaries":
+            # building a dictionary of unitaries (operators given as nested lists / arrays / tensors) is a pure function of its arguments: what
+            # is sampled afterwards must not depend on it having happened
+            from qucumber.utils import unitaries as UN
+            hl = [[[0.6, 0.8], [0.8, -0.6]], [[0.0, 0.0], [0.0, 0.0]]]
+            d_ = UN.create_dict(H=hl, Q=np.array(hl), W=torch.tensor(hl, dtype=torch.double))
+            outs.append({k_: v_.clone() for k_, v_ in d_.items()})
         elif k == "save_autoload":
             fp = os.path.join(tmp, f"m{i}.pt")
             state.save(fp, {"i": i})
